@@ -104,6 +104,8 @@ theorem inSyncC_true {c : Cons} : inSyncC c = true ↔ ∃ k, c = .inSync k := b
 
 @[simp] theorem expected_awaitReady (r : List Act) : expected (.awaitReady :: r) = expected r := by
   simp [expected, yields, ending]
+@[simp] theorem expected_pause (r : List Act) : expected (.pause :: r) = expected r := by
+  simp [expected, yields, ending]
 @[simp] theorem expected_yieldNull (r : List Act) : expected (.yieldNull :: r) = expected r := by
   simp [expected, yields, ending]
 @[simp] theorem expected_guard (r : List Act) : expected (.guard :: r) = expected r := by
@@ -292,6 +294,9 @@ theorem inv_exec : ∀ (sc : List Act) (s : State), Inv s → s.bst = .run → s
       have h1 := inv_skip h hr rest (by simp [hs])
       exact inv_exec rest _ (inv_recvArg h1 hr) (by simp [hr]) (by simp)
   | .awaitReady :: rest, s, h, hr, hs => by
+      unfold exec
+      exact inv_exec rest _ (inv_skip h hr rest (by simp [hs])) hr rfl
+  | .pause :: rest, s, h, hr, hs => by
       unfold exec
       exact inv_exec rest _ (inv_skip h hr rest (by simp [hs])) hr rfl
   | .await k :: rest, s, h, hr, hs => by
@@ -859,6 +864,7 @@ theorem konst_exec : ∀ (sc : List Act) (s : State), konst (exec sc s) = konst 
   | .yield v :: rest, s => by unfold exec; rw [konst_yieldAt]; rfl
   | .yieldNull :: rest, s => by unfold exec; rw [konst_exec, konst_recvArg]; rfl
   | .awaitReady :: rest, s => by unfold exec; rw [konst_exec]; rfl
+  | .pause :: rest, s => by unfold exec; rw [konst_exec]; rfl
   | .await k :: rest, s => by
       unfold exec; split
       · rw [konst_exec]; rfl
@@ -963,6 +969,9 @@ theorem exec_pos : ∀ (sc : List Act) (s : State),
       unfold exec; have := exec_pos rest (recvArg { s with script := rest })
       refine ⟨this.1.imp id (fun h => ?_), this.2⟩; simp; omega
   | .awaitReady :: rest, s => by
+      unfold exec; have := exec_pos rest { s with script := rest }
+      refine ⟨this.1.imp id (fun h => ?_), this.2⟩; simp; omega
+  | .pause :: rest, s => by
       unfold exec; have := exec_pos rest { s with script := rest }
       refine ⟨this.1.imp id (fun h => ?_), this.2⟩; simp; omega
   | .await k :: rest, s => by
